@@ -10,6 +10,8 @@ import (
 	"go/token"
 	"go/types"
 	"path/filepath"
+	"sort"
+	"strings"
 	"sync"
 
 	"golang.org/x/tools/go/ssa"
@@ -200,4 +202,179 @@ func onlyThroughFields(key, arg ssa.Value) bool {
 		return false
 	}
 	return !direct(key, 0)
+}
+
+// RunCacheInputs: a local map used as a cache inside a loop (comma-ok lookup
+// of key K, on a miss compute V and store it under K).  Every
+// iteration-dependent input of V — a load whose address changes from one
+// iteration to the next, reached through data or control dependence — must
+// also be an input of K; otherwise two iterations with equal keys and
+// different inputs share one cached value.
+func RunCacheInputs(w *World, r *Report, fns []*ssa.Function) {
+	r.Rule("cacheinputs: where a loop caches a computed value in a local map (v, ok := m[k]; if !ok { v = ...; m[k] = v }), every memory read that varies with the iteration and influences the value (through its operands or through the branch conditions that select it) also influences the key")
+	br := newBoundsRun(w)
+	for _, fn := range fns {
+		if fn.Blocks == nil {
+			continue
+		}
+		var loops []*natLoop
+		for _, b := range fn.Blocks {
+			for _, in := range b.Instrs {
+				mu, ok := in.(*ssa.MapUpdate)
+				if !ok {
+					continue
+				}
+				mk, ok := mu.Map.(*ssa.MakeMap)
+				if !ok {
+					continue
+				}
+				// the matching lookup: same map, same key value, comma-ok
+				var lk *ssa.Lookup
+				for _, ref := range *mk.Referrers() {
+					if l, ok := ref.(*ssa.Lookup); ok && l.CommaOk && sameKeyValue(l.Index, mu.Key) {
+						lk = l
+					}
+				}
+				if lk == nil || !lk.Block().Dominates(mu.Block()) {
+					continue
+				}
+				// a cache: the value found on a hit is used in place of the computed one
+				// (a phi merges them); "insert if absent, complain if present" is not a cache
+				isCache := false
+				for _, ref := range *lk.Referrers() {
+					ex, ok := ref.(*ssa.Extract)
+					if !ok || ex.Index != 0 || ex.Referrers() == nil {
+						continue
+					}
+					for _, r2 := range *ex.Referrers() {
+						if ph, ok := r2.(*ssa.Phi); ok {
+							for _, e := range ph.Edges {
+								if e == mu.Value {
+									isCache = true
+								}
+							}
+						}
+					}
+				}
+				if !isCache {
+					continue
+				}
+				if loops == nil {
+					loops = naturalLoops(fn)
+				}
+				var L *natLoop
+				for _, l := range loops {
+					if l.body[mu.Block()] && !l.body[mk.Block()] && (L == nil || len(l.body) < len(L.body)) {
+						L = l
+					}
+				}
+				if L == nil {
+					continue
+				}
+				p := br.prover(fn)
+				key := r.MkKey("cacheinputs", fnName(fn), "cache "+mk.Name()+" of "+types.TypeString(mk.Type(), func(p *types.Package) string { return p.Name() }))
+				// varying: depends on a phi of the loop head
+				headPhis := map[ssa.Value]bool{}
+				for _, hi := range L.head.Instrs {
+					if ph, ok := hi.(*ssa.Phi); ok {
+						headPhis[ph] = true
+					} else {
+						break
+					}
+				}
+				varying := func(v ssa.Value) bool {
+					for x := range backSlice(v) {
+						if headPhis[x] {
+							return true
+						}
+					}
+					return false
+				}
+				// leaves: loads inside the loop whose address varies
+				leaves := func(root ssa.Value, withControl bool) map[string]token.Pos {
+					out := map[string]token.Pos{}
+					seen := map[ssa.Value]bool{}
+					var visit func(v ssa.Value)
+					visit = func(v ssa.Value) {
+						if v == nil || seen[v] {
+							return
+						}
+						seen[v] = true
+						ins, ok := v.(ssa.Instruction)
+						if !ok || ins.Block() == nil || !L.body[ins.Block()] {
+							return
+						}
+						if v == ssa.Value(lk) {
+							return
+						}
+						if ex, ok := v.(*ssa.Extract); ok && ex.Tuple == ssa.Value(lk) {
+							return
+						}
+						if u, ok := v.(*ssa.UnOp); ok && u.Op == token.MUL {
+							if varying(u.X) {
+								name := u.X.Name()
+								if ia, ok := u.X.(*ssa.IndexAddr); ok {
+									name = ia.X.Name() + "[" + p.linStr(p.linOf(ia.Index)) + "]"
+								}
+								out[name] = u.Pos()
+							}
+							return
+						}
+						if ph, ok := v.(*ssa.Phi); ok && withControl {
+							for i := range ph.Edges {
+								pr := ph.Block().Preds[i]
+								for _, g := range guardsOf(pr) {
+									if L.body[g.ifb] {
+										visit(g.cond)
+									}
+								}
+								if len(pr.Instrs) > 0 {
+									if ifi, ok := pr.Instrs[len(pr.Instrs)-1].(*ssa.If); ok {
+										visit(ifi.Cond)
+									}
+								}
+							}
+						}
+						for _, op := range ins.Operands(nil) {
+							if *op != nil {
+								visit(*op)
+							}
+						}
+					}
+					visit(root)
+					return out
+				}
+				kl := leaves(mu.Key, false)
+				vl := leaves(mu.Value, true)
+				var missing []string
+				for name, pos := range vl {
+					if _, ok := kl[name]; !ok {
+						missing = append(missing, name+" (read at "+w.Pos(pos)+")")
+					}
+				}
+				sort.Strings(missing)
+				if len(missing) == 0 {
+					r.OK("cacheinputs", key, w.Pos(mu.Pos()), "every iteration-dependent input of the cached value is an input of the key")
+				} else {
+					r.Fail("cacheinputs", key, w.Pos(mu.Pos()), "the cached value depends on "+strings.Join(missing, ", ")+", which the key does not contain: records that agree in the key but differ there get the value computed for the first of them", nil)
+				}
+			}
+		}
+	}
+}
+
+// sameKeyValue: the two key operands denote the same value: the same SSA
+// value, or two loads of the same local variable.
+func sameKeyValue(a, b ssa.Value) bool {
+	if a == b {
+		return true
+	}
+	ua, ok1 := a.(*ssa.UnOp)
+	ub, ok2 := b.(*ssa.UnOp)
+	if ok1 && ok2 && ua.Op == token.MUL && ub.Op == token.MUL && ua.X == ub.X {
+		if _, isAlloc := ua.X.(*ssa.Alloc); isAlloc {
+			return true
+		}
+	}
+	return false
 }
